@@ -13,9 +13,9 @@ from fractions import Fraction
 from .framework import *
 
 PROPERTY = 'C11'
-GEN_MODULES = ['literals']
-LEAN_TARGETS = ['ChibiVerif.Props.C11', 'ChibiVerif.Props.C11Lex', 'ChibiVerif.Findings.C11']
-PROPS_FILES = ['ChibiVerif/Props/C11.lean', 'ChibiVerif/Props/C11Lex.lean']
+GEN_MODULES = ['literals', 'strjoin']
+LEAN_TARGETS = ['ChibiVerif.Props.C11', 'ChibiVerif.Props.C11Lex', 'ChibiVerif.Props.C11Join', 'ChibiVerif.Findings.C11']
+PROPS_FILES = ['ChibiVerif/Props/C11.lean', 'ChibiVerif/Props/C11Lex.lean', 'ChibiVerif/Props/C11Join.lean']
 NEEDS_HOOKS = False
 TRUSTED_BASE = [
     'Lean 4.33.0 kernel; axioms admitted: propext, Classical.choice, Quot.sound (audited per theorem on every run); '
@@ -30,12 +30,19 @@ TRUSTED_BASE = [
     'canonicalize_newline, remove_backslash_newline, convert_universal_chars (the last three with exact array semantics).  Mitigated by '
     'the differential run of every translated function against the compiled C function (exhaustive over all 0x110000 code points in the '
     'thorough tier)',
-    'hand models lean/ChibiVerif/Model/Literals.lean (join_adjacent_string_literals / getStringKind, tokenize_string_literal: source text '
-    'pinned) and Model/Text.lean (read_file: final newline), tied by in-process differential execution (testing).  The hand-written reader '
-    'functions, phase loops, convert_pp_int, pp-number scan, literal dispatch (order of the arms, token in context vs copy) and phase '
-    'composition that the theorems are stated about are *proved equal* to the translated functions (C11_translated_readers, '
-    'C11_translated_literal_readers, C11_translated_phases, C11_translated_int, C11_translated_ppnumber, C11_translated_lex, C11_arm_order, '
-    'C11_phase_order)',
+    'translator tools/extract/strjoin.py (+cmini.py): StringKind, getStringKind (strncmp tests and switch arms), tokenize_string_literal (reader '
+    'dispatch; element type read off each reader), type.c array_of size, both passes of join_adjacent_string_literals on one run of adjacent '
+    'string literals (inner loops -> structural recursion over the visited tokens, int locals as Int, calloc as zero bytes, memcpy as a '
+    'bounds-checked store, error_tok as an outcome), the tail of read_file (final newline, terminator) -> Gen/StrJoinGen.lean.  Mitigated by '
+    'the differential run of the translated functions on whole token lists and whole files (joinb / filej / rdf operations: element type, '
+    'array_len and every byte of the result compared with the compiled C under ASan/UBSan)',
+    'hand-written and tied by testing only: the iteration of the two outer loops of join_adjacent_string_literals over the maximal runs of at '
+    'least two TK_STR tokens (Model/StrJoin.lean overRuns; its C shape is required literally by strjoin.py), the libc stream calls of read_file '
+    'before its tail (open_memstream / fread / fwrite: "the stream holds the bytes of the file", text required literally).  The hand-written '
+    'reader functions, phase loops, convert_pp_int, pp-number scan, literal dispatch (order of the arms, token in context vs copy), phase '
+    'composition, join / getStringKind / tokenize_string_literal and the final-newline rule that the theorems are stated about are *proved '
+    'equal* to the translated functions (C11_translated_readers, C11_translated_literal_readers, C11_translated_phases, C11_translated_int, '
+    'C11_translated_ppnumber, C11_translated_lex, C11_arm_order, C11_phase_order, C11_translated_join, C11_read_file_spec, C11_source_text)',
     'libc strtoul: a parameter of the translated convert_pp_int; the integer-constant theorems assume the contract StrtoulSpec (value of a '
     'digit run of the base, saturation to ULONG_MAX, end pointer), which is proved of the Lean model strtoulC (Model/PpNumber.lean) and '
     'tested on the real libc directly (`stl` operations against the model and against a python statement of the contract)',
@@ -615,7 +622,7 @@ def leg_readers(ctx, corr):
             if is_scalar(c) and c not in (0x27, 0x5C, 0x0A):
                 ops.append('lit ' + (prefix.encode() + b"'" + ref_utf8(c) + b"';").hex())
         for body in ([b'\\' + k.encode() for k in SIMPLE_ESC] + [b'\\0', b'\\377', b'\\x7f', b'\\x80', b'\\xff', b'\\xffff', b'\\xffffffff',
-                                                                   b'\\101', b'ab', b'\\e']):
+                                                                   b'\\101', b'ab', b'\\e', b'\\x80000000', b'\\x7fffffff']):
             ops.append('lit ' + (prefix.encode() + b"'" + body + b"'+1").hex())
     # error paths
     for t in (b'"abc\n', b'"abc', b"'a", b"'", b'"\\', b'u"\xc3"', b'U"\x80"', b"L'\xe9'", b'"\\xg"', b'@'):
@@ -657,6 +664,172 @@ def leg_readers(ctx, corr):
         if w is not None and li != w:
             return {'what': 'BOM / CR / CRLF / backslash-newline / universal-character-name handling is not transparent', 'expected': w}
     run_both(ctx, corr, tops, 'text_phases', lambda op, li: True, oracle)
+
+
+# ------------------------------------------------------------------------------------------------ leg 4b: adjacent literals as translated, read_file
+
+PREFIXES = ['', 'u8', 'u', 'U', 'L']
+ELEM = {'': ('char', 1), 'u8': ('char', 1), 'u': ('ushort', 2), 'U': ('uint', 4), 'L': ('int', 4)}
+SAFE_AFTER_ESCAPE = b'~!#%&()*+,-./:;<=>@[]^_{|}ghijklmnopqrstuvwxyzGHIJKLMNOPQRSTUVWXYZ'
+
+def gen_piece(rng, prefix, ucn=True, n=None):
+    """one string literal with this prefix: (source bytes, items); item = ('c', code point) for a source character (written in UTF-8
+    or, when `ucn`, as a universal character name) or ('e', value) for a simple / octal / hexadecimal escape whose value is in range
+    for a narrow literal (narrow pieces) or for the element type (wide pieces); an octal/hex escape is followed by a byte that
+    cannot continue it"""
+    n = rng.randrange(0, 5) if n is None else n
+    body, items, after_esc = b'', [], False
+    for _ in range(n):
+        x = rng.random()
+        if after_esc:
+            c = rng.choice(SAFE_AFTER_ESCAPE)
+            body += bytes([c]); items.append(('c', c)); after_esc = False
+        elif x < 0.25:
+            c = rng.choice(b'abcXYZ019 ~!#%&()*+,-./:;<=>@[]^_{|}')
+            body += bytes([c]); items.append(('c', c))
+        elif x < 0.55:
+            c = rng.choice(BOUNDARY_CPS[3:]) if rng.random() < 0.6 else rng.randrange(0xA0, 0x110000)
+            if not is_scalar(c):
+                c = 0xE9
+            if ucn and rng.random() < 0.5:
+                body += (('\\u%04X' % c) if c < 0x10000 and rng.random() < 0.8 else ('\\U%08X' % c)).encode()
+            else:
+                body += ref_utf8(c)
+            items.append(('c', c))
+        elif x < 0.7:
+            k = rng.choice(list(SIMPLE_ESC))
+            body += b'\\' + k.encode(); items.append(('e', SIMPLE_ESC[k]))
+        elif x < 0.85:
+            v = rng.choice([0, 1, 7, 0o10, 0o77, 0o100, 0o177, 0o200, 0o377, rng.randrange(0, 0o400)])
+            body += b'\\' + format(v, 'o').encode(); items.append(('e', v)); after_esc = True
+        else:
+            lim = 0x100 if prefix in ('', 'u8') else (0x10000 if prefix == 'u' else 0x100000000)
+            v = rng.choice([0, 0x41, 0x7f, 0x80, 0xff, lim - 1, rng.randrange(0, lim)])
+            body += b'\\x' + format(v, rng.choice(['x', 'X'])).encode(); items.append(('e', v)); after_esc = True
+    return prefix.encode() + b'"' + body + b'"', items
+
+def ref_units(items, P):
+    """C11 6.4.5p6 for the items of a literal with (resulting) prefix P: code units"""
+    out = []
+    for k, v in items:
+        if k == 'e':
+            out.append(v & ((1 << (8 * ELEM[P][1])) - 1))
+        elif P in ('', 'u8'):
+            out += list(ref_utf8(v))
+        elif P == 'u':
+            out += ref_utf16(v)
+        else:
+            out.append(v)
+    return out
+
+def ref_joined(pieces):
+    """C11 6.4.5p5 for a run of adjacent literals [(prefix, items)]: the token line, or None when two different prefixes meet"""
+    ps = {p for p, _ in pieces if p}
+    if len(ps) > 1:
+        return None
+    P = ps.pop() if ps else ''
+    units = [u for _, items in pieces for u in ref_units(items, P)]
+    ty, sz = ELEM[P]
+    return 'S:%s:%d:%s' % (ty, len(units) + 1, b''.join(u.to_bytes(sz, 'little') for u in units + [0]).hex())
+
+def prefix_patterns(k):
+    """every combination of k prefixes in which all non-empty prefixes agree"""
+    out = []
+    for P in PREFIXES:
+        for bits in itertools.product([False, True], repeat=k):
+            pat = tuple(P if b else '' for b in bits)
+            if pat not in out:
+                out.append(pat)
+    return out
+
+def concat_cases(ctx, ucn, per_pattern):
+    """[(pieces source list, [(prefix, items)])] for runs of 2-4 literals over every compatible prefix combination"""
+    rng = ctx.rng
+    out = []
+    for k in (2, 3, 4):
+        for pat in prefix_patterns(k):
+            for _ in range(per_pattern):
+                main = next((p for p in pat if p), '')
+                srcs, pcs = [], []
+                for p in pat:
+                    # escapes of a narrow piece stay in narrow range; a wide piece may use its whole range
+                    src, items = gen_piece(rng, p, ucn=ucn)
+                    srcs.append(src); pcs.append((p, items))
+                out.append((srcs, pcs))
+    return out
+
+def leg_join(ctx, corr):
+    """join_adjacent_string_literals as translated (Gen/StrJoinGen.lean) on whole token lists: model <-> real code byte for byte
+    (element type, array_len, the ty->size bytes of the result), and the real code against C11 6.4.5p5/p6 computed here from the
+    structure of the generated literals; read_file's tail on files around the 4096-byte read chunk."""
+    rng = ctx.rng
+    per = 1 if not ctx.thorough else 12
+    ops, expect = [], {}
+    # (1) token lists: runs of every compatible prefix combination, other tokens between them, escapes in every piece (no UCNs: the text
+    #     does not pass the phases here)
+    cases = concat_cases(ctx, False, per)
+    rng.shuffle(cases)
+    i = 0
+    while i < len(cases):
+        chunks, want = [], []
+        for srcs, pcs in cases[i:i + 3]:
+            if rng.random() < 0.5:
+                chunks.append(rng.choice([b'x', b',', b'42', b"'c'", b'+', b'foo', b'1.5e3'])); want.append('O')
+            chunks += srcs; want.append(ref_joined(pcs))
+            chunks.append(rng.choice([b';', b')', b'y', b'0x1f'])); want.append('O')
+            if rng.random() < 0.4:
+                src, items = gen_piece(rng, rng.choice(PREFIXES), ucn=False)
+                chunks.append(src); want.append(ref_joined([(src.split(b'"')[0].decode(), items)]))
+                chunks.append(b','); want.append('O')
+        i += 3
+        op = 'joinb ' + ' '.join(c.hex() for c in chunks)
+        ops.append(op)
+        expect[op] = 'joinb ' + ' '.join(want)
+    # (2) all prefix combinations, also the diagnosed ones (model <-> code; C11 makes u8 + wide a constraint violation and two different
+    #     wide prefixes implementation-defined, so there is no oracle for those)
+    for k in (2, 3) if not ctx.thorough else (2, 3, 4):
+        for pat in itertools.product(PREFIXES, repeat=k):
+            srcs, pcs = [], []
+            for p in pat:
+                src, items = gen_piece(rng, p, ucn=False, n=rng.randrange(0, 3))
+                srcs.append(src); pcs.append((p, items))
+            op = 'joinb ' + ' '.join(c.hex() for c in srcs)
+            ops.append(op)
+            r = ref_joined(pcs)
+            if r is not None:
+                expect[op] = 'joinb ' + r
+            else:
+                corr.count('join_two_prefixes_diagnosed')
+    # (3) the same through tokenize_file: universal character names in every piece, BOM / CRLF / splices between the pieces
+    for srcs, pcs in concat_cases(ctx, True, per):
+        sep = rng.choice([b' ', b'\n', b'\r\n', b' \\\n ', b'  '])
+        text = (b'\xef\xbb\xbf' if rng.random() < 0.2 else b'') + b'x = ' + sep.join(srcs) + rng.choice([b' ;\n', b' ;', b' ;\r\n'])
+        op = 'filej ' + text.hex()
+        ops.append(op)
+        expect[op] = 'filej O O ' + ref_joined(pcs) + ' O'
+    def oracle(op, li):
+        w = expect.get(op)
+        if w is not None and li != w:
+            return {'what': 'adjacent string literals: element type / array length / bytes are not those of C11 6.4.5p5-6 (widest prefix, every '
+                            'piece decoded at that element type, units concatenated, one terminator)', 'expected': w}
+    run_both(ctx, corr, ops, 'join_translated', lambda op, li: ' S:' in li, oracle)
+    # (4) read_file
+    rops, rexp = [], {}
+    sizes = [0, 1, 2, 3, 4095, 4096, 4097, 8191, 8192, 8193] + [rng.randrange(0, 9000) for _ in range(12 if not ctx.thorough else 200)]
+    for n in sizes:
+        for last in (b'\n', b'x', b'\r', b'\\'):
+            t = bytes(rng.choice(b'abc \n\r\\"\'0123\xc3\xa9') for _ in range(max(0, n - 1))) + (last if n else b'')
+            if rng.random() < 0.1 and n > 2:
+                j = rng.randrange(n)
+                t = t[:j] + b'\0' + t[j + 1:]
+            op = 'rdf ' + hexs(t)
+            rops.append(op)
+            w = t if t.endswith(b'\n') else t + b'\n'
+            rexp[op] = 'rdf ' + (w.split(b'\0')[0] + b'\0').hex()
+    # (model <-> code only: C11 5.1.1.2 requires nothing of a file that is empty or does not end in a new-line character; the python
+    # statement of the rule is only counted)
+    run_both(ctx, corr, rops, 'read_file', lambda op, li: True)
+    corr.extra['read_file_rule_cases'] = len(rexp)
 
 # ------------------------------------------------------------------------------------------------ leg 5: splices anywhere (tokenize_file)
 
@@ -993,6 +1166,12 @@ def e2e_chars(ctx, corr):
                 if form is None:
                     continue
                 items.append((b'C(@ID@, ' + prefix.encode() + b"'" + form + b"');", f"{prefix}'" + form.decode('utf-8', 'replace') + "'"))
+    # the value of a character constant inside #if (6.10.1p4: the same value as in an expression here; char32_t / char16_t are unsigned,
+    # wchar_t is int): boundary values of the U / u / L prefixes, compared with gcc
+    for cond in ("U'\\xFFFFFFFF' > 0", "U'\\xFFFFFFFF' == 0xFFFFFFFF", "U'\\xFFFFFFFF' > 0x7FFFFFFF", "U'\\x80000000' > 0", "U'\\x80000000' == 0x80000000",
+                 "U'\\x7FFFFFFF' == 0x7FFFFFFF", "U'\\xFFFFFFFF' + 1 == 0x100000000", "u'\\xFFFF' == 65535", "u'\\x8000' > 0", "L'\\x7FFFFFFF' == 0x7FFFFFFF",
+                 "U'\\U0010FFFF' == 0x10FFFF", "U'a' == 97"):
+        items.append((f'\n#if {cond}\nprintf("@ID@ int 4 1\\n");\n#else\nprintf("@ID@ int 4 0\\n");\n#endif', f'#if {cond}'))
     corr.extra['excluded_by_construction'] = ("never generated (implementation-defined or constraint violations): multi-character constants "
                                               "('ab', plain 'é'), u'' above U+FFFF, escapes out of range for the element type, \\e, "
                                               "UCNs below U+00A0 or in D800-DFFF, invalid UTF-8 in the source, mixed wide prefixes")
@@ -1056,6 +1235,35 @@ def e2e_strings(ctx, corr):
                       f'static {ty} a[12] = {prefix}"€x😀" {prefix}"z"'))
         items.append((b'{ ' + ty.encode() + b' a_[2] = ' + prefix.encode() + b'"xy"; D(@ID@, a_); }', f'{ty} a[2] = {prefix}"xy" (no room for the terminator)'))
     e2e(ctx, corr, 'concat', items, 'adjacent string literals / string initialiser: result differs from gcc -std=c11 (C11 6.4.5p5, 6.7.9p14)')
+    # runs of 2-4 literals over every compatible prefix combination, escapes and universal character names in every piece:
+    # chibicc <-> gcc (element type through _Generic, sizeof, every code unit) and gcc <-> the translated model (`filej`: read_file,
+    # tokenize_file, tokenize, join_adjacent_string_literals as translated), byte for byte
+    items, fops = [], []
+    for srcs, pcs in concat_cases(ctx, True, 1 if not ctx.thorough else 10):
+        sep = rng.choice([b' ', b'\n', b' /* c */ ', b''])
+        lit = sep.join(srcs)
+        items.append((b'D(@ID@, ' + lit + b');', lit.decode('utf-8', 'replace')))
+        fops.append('filej ' + (b' '.join(srcs) + b'\n').hex())
+    want_lines = {}
+    def keep(line, c):
+        if c is None and line is not None:
+            want_lines[line.split(' ', 1)[0]] = line
+        return line
+    e2e(ctx, corr, 'concat_all_prefixes', items, 'adjacent string literals (every prefix combination, escapes and UCNs in each piece): '
+        'element type / sizeof / code units differ from gcc -std=c11 (C11 6.4.5p5)', keep, chunk=10 ** 9)
+    model = ctx.driver('literals', ''.join(o + '\n' for o in fops)).splitlines()
+    GCC_TY = {'char': 'char', 'ushort': 'ushort', 'uint': 'uint', 'int': 'int'}
+    for i, op in enumerate(fops):
+        w = want_lines.get(str(i))
+        if w is None:
+            continue
+        f = w.split(' ')
+        ty, total, esz = f[1], int(f[2]), int(f[3])
+        ref = 'filej S:%s:%d:%s' % (GCC_TY.get(ty, ty), total // esz, b''.join(int(u, 16).to_bytes(esz, 'little') for u in f[4:]).hex())
+        corr.evaluations += 1
+        corr.count('model_vs_gcc_concat')
+        if i < len(model) and model[i] != ref and len(corr.disagreements) < 5:
+            corr.disagreements.append({'kind': 'model_vs_gcc_concat', 'input': op, 'impl': 'gcc -std=c11: ' + ref, 'model': model[i]})
 
 TEXT_PROGRAM = [
     '#include <stdio.h>',
@@ -1181,15 +1389,21 @@ def correspond(ctx, corr):
                  'boundaries +-2, surrogate edges, every range-table endpoint +-1, seeded random scalars (thorough: all 0x110000 code points); '
                  'convert_pp_int on threshold x base x suffix spellings, alone and inside a text; libc strtoul against its Lean model and its '
                  'contract; the pp-number arm of tokenize() against the translated scan and the grammar of 6.4.8; read_escaped_char forms; tokenize() on string/char literals of every '
-                 'prefix; join_adjacent_string_literals; BOM/CR/CRLF/splice/UCN texts; from_hex on all bytes, read_universal_char, '
+                 'prefix; join_adjacent_string_literals (hand model on single runs; the translated passes on whole token lists with runs of 2-4 '
+                 'literals of every compatible prefix combination, every prefix pair/triple incl. the diagnosed ones, escapes in each piece, '
+                 'and through tokenize_file with UCNs / BOM / CRLF / splices between the pieces: element type, array_len and every byte '
+                 'against the real code and against C11 6.4.5p5-6 computed from the structure of the generated literals); read_file on files '
+                 'around the 4096-byte read chunk; BOM/CR/CRLF/splice/UCN texts; from_hex on all bytes, read_universal_char, '
                  'string_literal_end; tokenize_file() as a whole on files with 1-4 backslash-newlines inserted anywhere, whose first token '
                  'must be that of the unspliced file inside the region of C11_text_transparent) is run on the real code (harness, ASan/UBSan) and on the '
                  'Lean model and compared, and the real code is compared with reference codecs / the C11 type table written in python. '
                  '(b) end-to-end: generated programs compiled by chibicc and by gcc -std=c11, outputs (type via _Generic, sizeof, value, code '
-                 'units, float bits) compared; types compared modulo long long = long.  non-trivial = multi-byte/multi-unit/typed/err results; '
+                 'units, float bits) compared; runs of 2-4 adjacent literals over every compatible prefix combination with escapes and UCNs in '
+                 'each piece additionally compared gcc <-> translated model byte for byte; character constants at the U/u/L boundaries inside '
+                 '#if; types compared modulo long long = long.  non-trivial = multi-byte/multi-unit/typed/err results; '
                  'distinct = by operation text / literal spelling.')
     times = {}
-    for leg in (run_corpus, leg_codepoints, leg_int, leg_strtoul, leg_ppnumber, leg_escape, leg_translated, leg_readers, leg_splice, e2e_int, e2e_float, e2e_chars, e2e_strings, e2e_text, e2e_ident):
+    for leg in (run_corpus, leg_codepoints, leg_int, leg_strtoul, leg_ppnumber, leg_escape, leg_translated, leg_readers, leg_join, leg_splice, e2e_int, e2e_float, e2e_chars, e2e_strings, e2e_text, e2e_ident):
         t0 = time.time()
         leg(ctx, corr)
         times[leg.__name__] = round(time.time() - t0, 1)
@@ -1206,7 +1420,7 @@ def search(ctx, broken, corr):
     old = ctx.thorough
     ctx.thorough = True
     try:
-        for leg in (leg_translated, leg_escape, leg_int, leg_strtoul, leg_ppnumber, leg_readers, leg_splice, leg_codepoints):
+        for leg in (leg_translated, leg_escape, leg_int, leg_strtoul, leg_ppnumber, leg_readers, leg_join, leg_splice, leg_codepoints):
             if c2.violations:
                 break
             try:
@@ -1234,7 +1448,7 @@ def replay(ctx, corr, path):
     payload = json.load(open(path))
     op = payload.get('input')
     corr.evaluations = 1
-    if isinstance(op, str) and op.split(' ')[0] in ('enc', 'dec', 'id', 'u16', 'int', 'inta', 'stl', 'ppn', 'esc', 'lit', 'text', 'join', 'file', 'fhex', 'ruc', 'sle', 'rsl', 'rcl'):
+    if isinstance(op, str) and op.split(' ')[0] in ('enc', 'dec', 'id', 'u16', 'int', 'inta', 'stl', 'ppn', 'esc', 'lit', 'text', 'join', 'joinb', 'filej', 'rdf', 'file', 'fhex', 'ruc', 'sle', 'rsl', 'rcl'):
         li = run_impl(ctx, op + '\n')
         lm = ctx.driver('literals', op + '\n').splitlines()
         print('replay:', op, '->', li[:1], 'model', lm[:1], 'expected', payload.get('expected'))
@@ -1266,7 +1480,12 @@ MANIFEST = {
                   'units are the per-character UTF-8/UTF-16/UTF-32 encodings, with array length and token extent (C11_strings, '
                   'C11_string_char); character constants (C11_char_const); per-prefix element types (C11_prefix_types); floating suffix '
                   'types (C11_float_type).  Adjacent literals: kind resolution equals 6.4.5p5, different prefixes are diagnosed, the result is '
-                  'the concatenation with one terminator (C11_join_prefix_spec, C11_strings_join, C11_strings_join_diagnosed).  Source '
+                  'the concatenation with one terminator (C11_join_prefix_spec, C11_strings_join, C11_strings_join_diagnosed); these hold of '
+                  'join_adjacent_string_literals as translated statement by statement from preprocess.c (C11_translated_join, '
+                  'C11_strings_join_translated), whose second pass is proved at byte level: array_len = sum(array_len_i - 1) + 1, str = the units of '
+                  'all tokens in memory order followed by exactly one zero unit, no memcpy outside the allocation (C11_join_bytes); the prefix '
+                  'table of tokenize() and getStringKind agree (C11_prefix_kinds).  File bytes -> tokenizer text is one translated function '
+                  '(read_file tail, tokenize_file) equal to phase12 (C11_read_file_spec, C11_source_text).  Source '
                   'text: BOM, CR/CRLF/LF lines, splices (logical lines and newline count preserved), universal character names '
                   '(C11_text_bom/_newlines/_splice/_ucn); composition with the tokenizer: the lines tokenize() sees are the logical lines of '
                   'the unspliced phase-1 text with UCNs converted, for any number of splices (C11_text_lines); the literal token is read '
@@ -1281,9 +1500,9 @@ MANIFEST = {
                   'against the compiled C (exhaustively over all 0x110000 code points in the thorough tier); the remaining hand models are tied by '
                   'in-process differential execution, including tokenize_file() as a whole on files with splices inserted anywhere; generated '
                   'programs are compiled by chibicc and gcc -std=c11 and compared.',
-    'level_note': 'Trusted: Lean kernel (axioms propext, Classical.choice, Quot.sound), the translator, the remaining hand models (join / '
-                  'getStringKind, read_file final newline: tied by testing and by pinning their source '
-                  'text), Spec (validated against gcc 12 and python reference codecs), libc strtoul through a stated contract (model tested '
+    'level_note': 'Trusted: Lean kernel (axioms propext, Classical.choice, Quot.sound), the translators, the remaining hand-written parts (the '
+                  'iteration of join_adjacent_string_literals over the runs of a token list, the libc stream calls of read_file: tied by testing '
+                  'and by requiring their source text), Spec (validated against gcc 12 and python reference codecs), libc strtoul through a stated contract (model tested '
                   'against the real libc), strtold, <ctype.h> in the C locale.  '
                   'Floating-constant values are compared with gcc bit for bit but not modelled.  No open statement.  Types are stated '
                   'modulo long long = long (chibicc has one 64-bit integer type per signedness; only _Generic/pointer compatibility can tell).',
